@@ -16,11 +16,15 @@ import MesonModel.Ninja.Graph
 namespace MesonModel.Ninja.Emit
 open MesonModel.Ninja
 
-/-- `ninja_quote(text, is_build_line=True)` for a text without newline (with a newline the function raises):
-`$`, blank and `:` get a `$` in front, nothing else is touched — in particular not `|` -/
-def ninjaQuoteBuild : Str → Str
+/-- the substitution of `ninja_quote(text, is_build_line=True)`: `$`, blank and `:` get a `$` in front -/
+def quoteChars : Str → Str
   | [] => []
-  | c :: r => if c = '$' ∨ c = ' ' ∨ c = ':' then '$' :: c :: ninjaQuoteBuild r else c :: ninjaQuoteBuild r
+  | c :: r => if c = '$' ∨ c = ' ' ∨ c = ':' then '$' :: c :: quoteChars r else c :: quoteChars r
+
+/-- `ninja_quote(text, is_build_line=True)`: `none` = raises (`MesonException`): Ninja has no way to write a newline,
+and on a build line no way to write `|` (it ends a path there) -/
+def ninjaQuoteBuild (s : Str) : Option Str :=
+  if '\n' ∈ s ∨ '|' ∈ s then none else some (quoteChars s)
 
 structure Rule where
   name : Str
@@ -91,6 +95,8 @@ inductive WErr where
   | multipleProducers
   /-- `ninja_quote` refuses newlines -/
   | newline
+  /-- `ninja_quote(…, is_build_line=True)` refuses `|` -/
+  | pipe
   deriving Repr, DecidableEq
 
 structure OutBuild where
@@ -147,13 +153,17 @@ def insertSorted (x : Str) : List Str → List Str
 /-- `sorted(set(l))` -/
 def sortedSet (l : List Str) : List Str := l.foldr insertSorted []
 
-def hasNewline (l : List Str) : Bool := l.any (fun s => s.contains '\n')
+/-- the exception of the first name (in quoting order) that `ninja_quote(name, True)` refuses; the newline test comes first -/
+def firstBad : List Str → Option WErr
+  | [] => none
+  | s :: r => if '\n' ∈ s then some .newline else if '|' ∈ s then some .pipe else firstBad r
 
 /-- `NinjaBuildElement.write` (the build line) -/
 def writeElem (e : Elem) : Except WErr OutBuild :=
   if e.outputErrors then .error .multipleProducers
-  else if hasNewline (e.ins ++ e.outs ++ e.implOuts ++ e.deps ++ e.orderdeps) then .error .newline
-  else .ok { outs := e.outs.map slash, implOuts := e.implOuts.map slash, rule := slash (lineRule e),
+  else match firstBad (e.ins ++ e.outs ++ e.implOuts ++ sortedSet e.deps ++ sortedSet e.orderdeps) with
+  | some x => .error x
+  | none => .ok { outs := e.outs.map slash, implOuts := e.implOuts.map slash, rule := slash (lineRule e),
              ins := e.ins.map slash, deps := (sortedSet e.deps).map slash,
              orderdeps := (sortedSet e.orderdeps).map slash }
 
@@ -169,14 +179,19 @@ def writeElems : List Elem → Except WErr (List OutBuild)
 
 /-- the first loop of `NinjaBuild.write`: `count_rule_references` of every element, in order.
 `_should_use_rspfile` raises when no rule was attached; for a response-file capable rule
-`NinjaRule.should_use_rspfile` already quotes the input and output names, so a newline surfaces here. -/
+`NinjaRule.should_use_rspfile` already quotes the input and output names, so a newline or `|` surfaces here. -/
 def countRefs : List Elem → Option WErr
   | [] => none
   | e :: r =>
     if e.rulename = phony then countRefs r
     else match e.attached with
       | none => some .unmappedRule
-      | some ru => if ru.rspable && hasNewline (e.ins ++ e.outs) then some .newline else countRefs r
+      | some ru =>
+        if ru.rspable then
+          match firstBad (e.ins ++ e.outs) with
+          | some x => some x
+          | none => countRefs r
+        else countRefs r
 
 /-- `NinjaBuild.write` -/
 def write (st : State) : Except WErr Out :=
